@@ -132,7 +132,7 @@ theorem flatAgg_name (m : SModel) (ms : Measure) (n : String) : (flatAgg m ms n)
 /-- **Spec in flat form.** -/
 theorem grouped_eq_flat (m : SModel) (q : Query) (rows : List Row) (hpk : PkOK m rows) :
     grouped m q rows = flatEval (flat m q) rows := by
-  unfold grouped flatEval flat flatGroups
+  unfold grouped groupsOf flatEval flat flatGroups
   simp only [List.map_map, List.isEmpty_map]
   have hgroups : ∀ kg ∈ (if (effectiveDims m q).isEmpty = true then [([], rows.filter (allTrue (rowFilters m q)))]
       else groupBy (fun r => (effectiveDims m q).map fun ref => (dimRefExpr m ref).eval r)
